@@ -44,10 +44,12 @@ CLAIMED = {
    text=("Lean theorems over all instants and all chains: the formats' time grids are nested (frames of milliseconds = frames, ...), each hop is idempotent, a "
          "chain of any length brings an instant to the coarsest grid on the chain and nothing more (chain_coarsest, induction over the chain), and a second "
          "pass is the identity (second_pass_identity) - so 'no drift' follows once each hop truncates to its grid, which C01/C02 establish per format. "
+         "For SRT the hop itself is proved end to end on the writer and reader models (srt_hop: reading what the writer wrote returns one caption per written cue, "
+         "in order, with the millisecond-truncated instants and the writer's text lines, for EVERY list of cues with visible text; srt_hop_instant ties it to coarsen). "
          "Execution with pycaption's own readers: all 25 ordered pairs (125 triples in thorough) plus sampled longer chains, two passes, per-language "
          "(start, end, normalised text) compared after every hop with the sequentially coarsened original (SAMI: last cue = start + 4 s)."),
-   ref="§3 C08", technique="Lean 4 proof (omega over nested grids, induction over the format chain) + exhaustive pair/triple execution with the real readers and writers",
-   note=NOTE_COMMON + "hop_obs per format (write then parse then read = coarsen) is composed from the C01-C04 models only by execution, not by a single theorem; languages are compared by code (order is C14's subject)."),
+   ref="§3 C08", technique="Lean 4 proof (omega over nested grids, induction over the format chain) + end-to-end write/read theorem for SRT (refinement of the index scanner) + exhaustive pair/triple execution with the real readers and writers",
+   note=NOTE_COMMON + "for the other formats hop_obs (write then parse then read = coarsen) is composed from the C01-C04 models only by execution, not by a single theorem; languages are compared by code (order is C14's subject)."),
  "C14": dict(
    text=("Lean theorems: DFXP div language = own xml:lang, else the document's, else the configured default (dfxp_lang_fallback); the languages of a document are "
          "exactly the resolved div languages, each once, in first-appearance order (dfxp_languages_first_appearance, invariant over the ordered-dict fold); "
@@ -138,7 +140,8 @@ CLAIMED = {
    text=("Lean model of the DFXP/SAMI text-leaf rule (the pinned pattern ^(?:[\\n\\r]+\\s*)?(.+) with its backtracking, plus the wrapped-line remainder) with "
          "theorems leaf_single_line (a one-line leaf is read verbatim, nothing decoded twice at this stage) and splitWs_no_space; executable models of the "
          "SRT, MicroDVD and WebVTT readers including WebVTT _decode (voice/other span patterns as specialised matchers for the pinned regex texts, "
-         "'&amp;' replaced last). All five readers are run on documents produced by independent serialisers from an abstract caption with spelling variants "
+         "'&amp;' replaced last), with the theorem vtt_line_roundtrip: for EVERY line without white space at its ends the reader's _decode of the writer's escaped "
+         "form is the line itself (the six whole-string replace passes are shown to act token by token on escaped text). All five readers are run on documents produced by independent serialisers from an abstract caption with spelling variants "
          "(literal/named/decimal/hex), source line wrapping and tag nestings, and must return the authored lines up to whitespace."),
    ref="§3 C04", technique="Lean 4 model + theorems for the leaf rule, pinned regex texts, differential correspondence, independent-serialiser oracle",
    note=NOTE_COMMON + "HTML/XML tokenisation and entity tables belong to html.parser/lxml (trusted, tied by execution); bs4's collapsing of blank-only strings is reproduced in the harness. "
@@ -164,7 +167,7 @@ CLAIMED = {
          "with all offset metrics, SAMI end back-filling with the 4 s tail) are compared with the implementation and with an independent denotation on "
          "documents rendered by the harness's own serialisers in every spelling, plus a malformed stream for the error branches."),
    ref="§3 C01", technique="Lean 4 proof (string induction: split/span lemmas) + pinned constants/patterns + differential correspondence on generated documents",
-   note=NOTE_COMMON + "SAMI end back-filling is proved for every sync list (sami_backfill: next later sync of the language, else the 4 s tail). Document-level theorems for the SRT/WebVTT block scanners (srt_doc_cues, vtt_doc_cues) and the DFXP offset metrics are not proved yet: those parts are model + correspondence + independent spec only. "
+   note=NOTE_COMMON + "SAMI end back-filling is proved for every sync list (sami_backfill: next later sync of the language, else the 4 s tail) and the SRT reader for whole documents of any number of well-formed blocks (srt_doc_cues: one caption per block, in order, with the denoted instants; the hypotheses are met by srt_block_wf for hh:mm:ss,fff stamps of any width). The same is proved for WebVTT (vtt_doc_cues with vtt_block_wf: header, identifier lines, any number of blocks). The DFXP offset metrics and MicroDVD lines are not proved at document level yet: those parts are model + correspondence + independent spec only. "
         "XML/HTML tokenisation (bs4/lxml/html.parser) is library code tied by correspondence. SRT blocks without any text line and digits outside ASCII are outside the modelled domain."),
 
  "C13": dict(
